@@ -10,6 +10,7 @@ From Mpc Require Import Circuit.Circuit Circuit.Passes Circuit.PassesProof Circu
   Circuit.PassesIO Circuit.PassesTV Circuit.PassesInv Circuit.PassesPrune Circuit.PassesPanic
   Circuit.PassesExamples.
 Import ListNotations.
+From Mpc Require Gen.State Base.StateExpected Base.StateCheck Base.StatePkgs.
 
 (* For every freshly built graph (gates in dependency order, single
    assignment, standard constants) and every input x: forward evaluation is a
@@ -254,3 +255,16 @@ Theorem C09_hypotheses_inhabited :
    length (gorder G3) < length (gorder ex_graph) /\ gerr G3 = 0).
 Proof. exact (conj ex_wfg (conj ex_wfb (conj ex_wfx (conj ex_cwf (conj ex_emission ex_dead_gates))))). Qed.
 Print Assumptions C09_hypotheses_inhabited.
+
+(* STATE INVENTORY (finite obligation on the model regenerated from the source, checked by
+   computation).  The struct fields and package-level variables of the Go packages this
+   property is anchored in — circuit, compiler/circuits, compiler/ssa, compiler/utils — as emitted from /repo's current
+   source by harness/gen_state.go (Gen/State.v) are exactly those the models above were written
+   against (Base/StateExpected.v).  A new field or variable (a cache, a memo, a pool, a counter,
+   a changed field type) is state the models do not have: this obligation then breaks and the
+   property is no longer shown to hold until the change has been reviewed against the model. *)
+Theorem C09_state_inventory :
+  Mpc.Base.StateCheck.state_unchanged Mpc.Gen.State.state_inventory Mpc.Base.StateExpected.expected_state
+    Mpc.Base.StatePkgs.pkgs_C09 = true.
+Proof. vm_compute. reflexivity. Qed.
+Print Assumptions C09_state_inventory.
